@@ -50,6 +50,14 @@ META = {'C01': {'text': 'Model-based stateful property testing: random histories
          'design_ref': 'DESIGN.md §6 C07',
          'note': 'Trusts the reference model; snapshots are taken and restored through in-memory buffers (bytes.Buffer).',
          'technique': 'model-based stateful property testing (rapid) with round-trip + reference-model oracle'},
+ 'C09': {'text': 'Controlled-schedule exploration (random schedules by rapid + exhaustive enumeration of fixed configurations) with a '
+                 'fold-in-apply-order oracle read from the recorded stream, plus free-parallel runs for commutative merges of every numeric kind. '
+                 'Exploration; exhaustive only for the listed small configurations.',
+         'design_ref': 'DESIGN.md §6 C09, §2.4',
+         'note': "Trusts the recording logger's order as apply order (Append is called under the block latch) and the reference model's merge "
+                 'functions.',
+         'technique': 'controlled-schedule exploration (cooperative scheduler, rapid + bounded-exhaustive DFS) with history-fold oracle; '
+                      'free-parallel stress for commutative merges'},
  'C11': {'text': 'Model-based stateful property testing of the allocator over fill patterns built to hit every branch of the free-slot search, plus '
                  'generated concurrent insert/delete programs under real parallelism checked with unique tags. Exploration.',
          'design_ref': 'DESIGN.md §6 C11',
